@@ -1,0 +1,37 @@
+// Verification hooks. Compiled only with `--cfg clock_bound_verif`; the daemon built without that
+// flag contains none of this. The hooks forward to callbacks installed by an external harness so
+// that scripting and scheduling logic lives outside this repository.
+
+use chrony_candm::reply::Reply;
+use chrony_candm::request::RequestBody;
+use chrony_candm::ClientOptions;
+use std::sync::{Mutex, RwLock};
+
+pub type QueryFn = Box<dyn FnMut(RequestBody, ClientOptions) -> std::io::Result<Reply> + Send>;
+pub type PointFn = Box<dyn Fn(&'static str) -> bool + Send + Sync>;
+
+/// Scripted replacement for `chrony_candm::blocking_query_uds` (None: the real query is made).
+pub static QUERY: Mutex<Option<QueryFn>> = Mutex::new(None);
+
+/// Callback invoked at named program points. It may panic (fault injection); returning `true`
+/// asks the calling thread to return from its entry function.
+pub static POINT: RwLock<Option<PointFn>> = RwLock::new(None);
+
+pub fn scripted_query(request_body: RequestBody, options: ClientOptions) -> std::io::Result<Reply> {
+    let mut guard = QUERY.lock().unwrap_or_else(|e| e.into_inner());
+    match guard.as_mut() {
+        Some(f) => f(request_body, options),
+        None => {
+            drop(guard);
+            chrony_candm::blocking_query_uds(request_body, options)
+        }
+    }
+}
+
+pub fn point(name: &'static str) -> bool {
+    let guard = POINT.read().unwrap_or_else(|e| e.into_inner());
+    match guard.as_ref() {
+        Some(f) => f(name),
+        None => false,
+    }
+}
